@@ -281,7 +281,7 @@ FIELD_VALUES = [0, 1, 2, 3, 0xFF, 0xFFFF, 1 << 31, 1 << 32, (1 << 63), (1 << 64)
 def mutate(rng: random.Random, data: bytes) -> Tuple[bytes, str]:
     info = parse(data)
     kind = rng.choice(['header-field', 'segment-field', 'segment-field', 'segment-field', 'bitflip', 'truncate-extend',
-                       'splice', 'payload-damage', 'random', 'structured'])
+                       'splice', 'payload-damage', 'random', 'structured', 'segment-table'])
     b = bytearray(data)
     version = info['version'] if info else 1
     seg_off = 20 + (12 if version else 0)
@@ -326,6 +326,28 @@ def mutate(rng: random.Random, data: bytes) -> Tuple[bytes, str]:
         return bytes(b), 'payload-damage'
     if kind == 'random':
         return bytes(rng.getrandbits(8) for _ in range(rng.choice([0, 1, 19, 20, 32, 52, 64, 200]))), 'random-bytes'
+    if kind == 'segment-table':
+        # a well-formed file (every data range inside the pool, data <= length) whose ONLY possible contradiction is the
+        # relation between segments: overlapping, nested, identical, with empty entries sorted between them, in any table order
+        w = rng.choice([8, 16, 32, 64])
+        version = rng.choice([0, 1, 2, 3])
+        table = []
+        pool = 0
+        for _ in range(rng.choice([2, 3, 3, 4, 5])):
+            start = 2 * rng.randrange(0, 10)
+            length = rng.choice([0, 0, 2, 2, 4, 8, 12])
+            dlen = rng.choice([0, length, 2 * rng.randrange(0, length // 2 + 1)])
+            table.append((start, length, pool, dlen))
+            pool += dlen
+        out = bytearray(struct.pack(HEADER, 0x4A46, w, version, len(table)))
+        if version:
+            out += struct.pack(EXT, 0, 0)
+        for seg in table:
+            out += struct.pack(SEG, *seg)
+        payload = b''.join(rng.randrange(1, 1 << min(w, 16)).to_bytes(w // 8, 'little') for _ in range(pool))
+        if version == 3:
+            payload = lzma.compress(payload, format=lzma.FORMAT_RAW, filters=[{'id': lzma.FILTER_LZMA2, 'preset': 0}])
+        return bytes(out) + payload, 'segment-table'
     # structure-aware random file
     w = rng.choice([8, 16, 32, 64, 64, 7, 0])
     version = rng.choice([0, 1, 2, 3, 3, 4])
